@@ -428,6 +428,18 @@ func runC08(c *core.Ctx) {
 				c.Violate("pipeline-vs-assign|"+resClass(r1), "a filter pipeline does not behave like doing its steps one at a time through assign",
 					map[string]any{"pipeline": direct, "decomposed": sb.String(), "bindings": env.String(), "pipeline_result": r1.Brief(), "decomposed_result": r2.Brief()})
 			}
+			// parentheses group, they do not change the value: the pipeline in parentheses, printed and handed on to assign
+			grouped := "{{ (" + st.ExprSource(ex) + ") }}"
+			groupedAssign := "{% assign vg = (" + st.ExprSource(ex) + ") %}{{ vg }}"
+			r3, r4 := core.Run(e, grouped, b), core.Run(e, groupedAssign, b)
+			c.Eval(2)
+			for _, rg := range []core.Res{r3, r4} {
+				if rg.Panic != "" || !(r1.OK() && rg.OK() && r1.Out == rg.Out || r1.Failed() && rg.Failed()) {
+					c.Violate("pipeline-in-parentheses|"+resClass(rg), "a filter pipeline written in parentheses does not have the value it has without them",
+						map[string]any{"pipeline": direct, "grouped": grouped, "grouped_assign": groupedAssign, "bindings": env.String(), "pipeline_result": r1.Brief(), "grouped_result": rg.Brief()})
+					break
+				}
+			}
 			continue
 		}
 		prog := g.Program()
@@ -462,8 +474,8 @@ func runC08(c *core.Ctx) {
 			continue
 		}
 		ar := filterArity(e, name)
-		if ar < 0 {
-			continue
+		if ar < 0 || filterVariadic(e, name) {
+			continue // not readable, or a filter that takes any number of arguments: no call has more than it takes
 		}
 		for _, recv := range []string{"'x'", "1", "arr"} {
 			args := make([]string, ar+1)
